@@ -16,7 +16,8 @@ def finding_key(ob: Ob) -> str:
     return ob.call or ob.name
 
 
-def run_prop(prop: str, what: str, tier: str, seed: int, log, opts=None, key_of=None, only=None) -> List[Ob]:
+def run_prop(prop: str, what: str, tier: str, seed: int, log, opts=None, key_of=None, only=None,
+             routing_validation=True) -> List[Ob]:
     t0 = time.time()
     pool = fam.VALID if tier == 'quick' else fam.ALL_CASES      # ALL_CASES starts with VALID
     indices = [i for i in range(len(pool)) if only is None or only(pool[i])]
@@ -25,8 +26,14 @@ def run_prop(prop: str, what: str, tier: str, seed: int, log, opts=None, key_of=
     # ---- trusted-base validation: machine vs compiled program on sampled programs
     rnd = random.Random(seed)
     n_val = 12 if tier == 'quick' else 48
-    sample = sorted(rnd.sample(indices, min(n_val, len(indices))))
+    sample = sorted(rnd.sample(indices, min(n_val, len(indices)))) if routing_validation else []
     vals = ssrun.run_parallel(ssrun.validate_case, sample)
+    for r in results:                       # validation carried out inside the analysis (threaded scenarios)
+        v = r.get('validation')
+        if v is None or r['status'] != 'ok':
+            continue
+        vals.append({'label': r['label'], 'agree': (not v['detail']) if v['checked'] else None,
+                     'detail': v['detail'] or 'nothing could be validated', 'n_events': v['events']})
     agree = [v for v in vals if v['agree'] is True]
     for v in vals:
         if v['agree'] is False:
